@@ -22,7 +22,9 @@ EXPLANATION = (
     "that writes through the corresponding parameter (transitively; memcpy/memset/fread destinations "
     "included) is null, selected by the loop index, or private to the iteration (allocated or declared "
     "inside the region) - a scratch buffer allocated once before the region and written by every worker "
-    "is reported. Decides these clauses, not equality of batches "
+    "is reported; (5) a descriptor, stream, mapping or block that a reader / writer handle releases outside its "
+    "destructor is overwritten in the handle before the function returns (otherwise the destructor releases it "
+    "again - for a descriptor that closes whatever another handle or thread was given under the same number). Decides these clauses, not equality of batches "
     "across thread counts nor races inside zlib/zstd/libgomp.")
 
 BR = "src/reader/batch_reader.c"
@@ -117,6 +119,10 @@ def run(ctx):
     ctx.clause("C07.2 mutable file-scope state is thread-local or accepted idempotent lazy init (writer-restricted)")
     ctx.clause("C07.3 positioned I/O reachable from a region is inside omp critical, seek+read together")
     ctx.clause("C07.4 memory handed to a callee inside a region for writing is private to the iteration")
+    ctx.clause("C07.5 a descriptor, stream or mapping released before its handle dies is forgotten by the handle (a second close would hit whoever got the number next)")
+    from ..rules import stalefield
+    nst = stalefield.check(ctx, P.funcs_under("src/reader/", "src/writer/"), rule="R27.stale-member", key_prefix="stale-handle")
+    ctx.floor("C07 member releases outside destructors", nst, 15)
     f = P.fn("carquet_batch_reader_next", BR)
     regions = _omp_regions(f)
     ctx.floor("C07 parallel regions", len(regions), 2)
